@@ -412,8 +412,9 @@ Definition begin_block_pool (s : mstate) (asset : Z) (pool : mpool) (new_rate : 
   if negb (mem asset (mp_pools (ms_params s))) then
     Ok (s <| ms_pools := set asset p0 (ms_pools s) |>, [])
   else
-    (* InterestRateComputation divides by both balances *)
-    if (q_nb p0 =? 0) || (q_eb p0 =? 0) then Panic else
+    (* InterestRateComputation divides by both balances: with an empty side it returns an error (fix F-7), the error is
+       logged and the loop goes on to the next pool without storing this one *)
+    if (q_nb p0 =? 0) || (q_eb p0 =? 0) then Ok (s, []) else
     let '(r, rn, rd) := new_rate in
     let p1 := p0 <| q_rate := r |> <| q_rate_num := rn |> <| q_rate_den := rd |> in
     let s1 := s <| ms_pools := set asset p1 (ms_pools s) |> in
